@@ -156,7 +156,11 @@ func (t *IDTokenClaims) GetAccessTokenHash() string {
 }
 
 func (t *IDTokenClaims) SetUserInfo(i *UserInfo) {
-	t.Subject = i.Subject
+	// a storage fills the userinfo subject only for the openid scope:
+	// never blank the subject the token was created for
+	if i.Subject != "" {
+		t.Subject = i.Subject
+	}
 	t.UserInfoProfile = i.UserInfoProfile
 	t.UserInfoEmail = i.UserInfoEmail
 	t.UserInfoPhone = i.UserInfoPhone
